@@ -734,4 +734,24 @@ def c16_o(ctx: Ctx):
         out.append(ctx.ok(R, None, None, "no temporary extraction directory in signac.import_export", construct="signac.import_export|extraction-outside-project", nontrivial=False))
     return out
 
-RULES = [c16_a, c16_b, c16_c, c16_d, c16_e, c16_f, c16_g, c16_h, c16_i, c16_j, c16_k, c16_l, c16_m, c16_n, c16_o]
+@rule("C16-p")
+def c16_p(ctx: Ctx):
+    """Exports and clones copy what links point to: no tree copy in signac.project / signac.import_export asks shutil.copytree to keep symbolic links as links (a link
+    that leads out of the job directory would arrive dangling and its data would be missing from the export)."""
+    R = "C16-p"
+    out = []
+    n = 0
+    for mq in ("signac.project", "signac.import_export"):
+        for f in ctx.prog.functions_of_module(mq):
+            for c in [x for x in ast.walk(f.node) if isinstance(x, ast.Call)]:
+                if (dotted(c.func) or "").endswith("copytree") or ((dotted(c.func) or "").endswith("partial") and c.args and (dotted(c.args[0]) or "").endswith("copytree")):
+                    n += 1
+                    sl = kwarg(c, "symlinks")
+                    if sl is not None and ctx.fold(sl, f) is not False:
+                        out.append(ctx.viol(R, f, c, f"`{canon(c)[:60]}` keeps symbolic links as links: data behind a link that leads out of the job directory is not part of the "
+                                            "exported / cloned job", construct=f"{mq}|links-followed"))
+    if not out:
+        out.append(ctx.ok(R, None, None, f"{n} tree copies in signac.project / signac.import_export, none keeps links as links", construct="links-followed"))
+    return out
+
+RULES = [c16_a, c16_b, c16_c, c16_d, c16_e, c16_f, c16_g, c16_h, c16_i, c16_j, c16_k, c16_l, c16_m, c16_n, c16_o, c16_p]
